@@ -4,6 +4,11 @@ with trans a sorted tuple of (p, a, r, out_index)."""
 from itertools import combinations, permutations
 
 OUTS = [(), ("x",), ("y",), ("x", "y")]
+OUTS_XX = [(), ("x",), ("xx",), ("x", "xx")]      # output symbols whose concatenations coincide as strings
+
+
+def outs(scheme):
+    return OUTS_XX if scheme.endswith("+xx") else OUTS
 IN = {0: None, 1: "a", 2: "b"}
 
 
@@ -44,6 +49,9 @@ def thaw(case):
 
 
 def names(scheme, q):
+    scheme = scheme.replace("+xx", "")
+    if scheme == "hub":        # names the library itself invents for the state added by kleene_star
+        return ["star", "star0", "q"][:q]
     if scheme == "str":
         return ["q%d" % i for i in range(q)]
     if scheme == "int":
